@@ -1681,10 +1681,16 @@ class LemmaAffineLag(_LoopLemma):
 def ess_rho_of(n, m, SSm, SBm, SAm):
     """rho_t of the ESS definition from the three sums over the m chains: SSm = sum_c s2_c, SBm = sum_c (mu_c - G)^2, SAm = sum_c acov_c(t);
     between-chain variance 0 for a single chain.  Returns (rho_t, var+)"""
+    p = ess_parts(n, m, SSm, SBm, SAm)
+    return p['rho'], p['vp']
+
+
+def ess_parts(n, m, SSm, SBm, SAm):
     nr, mr = z3.ToReal(n), z3.ToReal(m)
     Wv, Bv = SSm / mr, z3.If(m == 1, z3.RealVal(0), nr * (SBm / (mr - 1)))
     vp = ((nr - 1) * Wv + Bv) / nr
-    return 1 - (Wv - SAm / mr) / vp, vp
+    MA = SAm / mr
+    return dict(W=Wv, B=Bv, vp=vp, MA=MA, rho=1 - (Wv - MA) / vp)
 
 
 class _EssLemma(Contract):
@@ -1712,18 +1718,41 @@ class LemmaEssAffine(_EssLemma):
         s.L2 = stmt_affine_ss(m, MU, a, b, G, SB, SB2)
         s.L3 = stmt_affine_sum(m, S2, a * a, z3.RealVal(0), SS, SS2)
         s.L4 = stmt_affine_sum(m, ACt, a * a, z3.RealVal(0), SA, SA2)
-        s.rho, s.vp = ess_rho_of(n, m, SS(m), SB(m), SA(m))
-        s.rho2, s.vp2 = ess_rho_of(n, m, SS2(m), SB2(m), SA2(m))
+        s.P, s.P2 = ess_parts(n, m, SS(m), SB(m), SA(m)), ess_parts(n, m, SS2(m), SB2(m), SA2(m))
+        s.rho, s.vp, s.rho2, s.vp2 = s.P['rho'], s.P['vp'], s.P2['rho'], s.P2['vp']
+        s.Rq = dict(n=n >= 2, m=m >= 1, a=a != 0, vp=s.vp > 0)
         vc._s = s
         return s, (), {}
 
     def env(self, vc):
         s = vc._s
-        return dict(use_affine_grand_mean=lambda: vc.assume(use(s.L1)), use_affine_between=lambda: vc.assume(use(s.L2)),
-                    use_affine_within=lambda: vc.assume(use(s.L3)), use_affine_autocov=lambda: vc.assume(use(s.L4)))
+
+        def last():
+            """the arithmetic after the four sums: small focused steps (ground nonlinear real arithmetic over few terms each)"""
+            U4 = use(s.L4)
+            vc.assume(U4)
+            m, a2, P, P2, Rq = s.m, s.a * s.a, s.P, s.P2, s.Rq
+            E = fcut(vc, 'the three sums over the chains scale by a^2', z3.And(s.SB2(m) == a2 * s.SB(m), s.SS2(m) == a2 * s.SS(m), s.SA2(m) == a2 * s.SA(m)),
+                     [s.U[2], s.U[3], U4, s.L2[0], s.L3[0], s.L4[0]])
+            pW = fcut(vc, 'W scales by a^2', P2['W'] == a2 * P['W'], [E, Rq['m']])
+            pB = fcut(vc, 'B scales by a^2', P2['B'] == a2 * P['B'], [E, Rq['m'], Rq['n']])
+            pA = fcut(vc, 'the mean lag-t autocovariance scales by a^2', P2['MA'] == a2 * P['MA'], [E, Rq['m']])
+            pV = fcut(vc, 'var+ scales by a^2', P2['vp'] == a2 * P['vp'], [pW, pB, Rq['n']])
+            fcut(vc, 'var+ of the transformed chains is positive', P2['vp'] > 0, [pV, Rq['a'], Rq['vp']])
+            fcut(vc, 'rho_t is unchanged', P2['rho'] == P['rho'], [pW, pA, pV, Rq['a'], Rq['vp']])
+        s.U = {}
+
+        def step(k, L):
+            def g():
+                s.U[k] = use(L)
+                vc.assume(s.U[k])
+                if k == 1:
+                    fcut(vc, 'grand mean of the transformed chains', s.SG2(s.m) / z3.ToReal(s.m) == s.a * s.G + s.b, [s.U[1], s.L1[0], s.Rq['m']])
+            return g
+        return dict(use_affine_grand_mean=step(1, s.L1), use_affine_between=step(2, s.L2), use_affine_within=step(3, s.L3), use_affine_autocov=last)
 
     def requires(self, s):
-        return [s.n >= 2, s.m >= 1, s.a != 0, s.L1[0], s.L2[0], s.L3[0], s.L4[0], ('the pooled variance is positive', s.vp > 0)]
+        return [s.Rq['n'], s.Rq['m'], s.Rq['a'], s.L1[0], s.L2[0], s.L3[0], s.L4[0], ('the pooled variance is positive', s.Rq['vp'])]
 
     def ensures(self, s, result):
         m, a2 = s.m, s.a * s.a
